@@ -74,7 +74,10 @@ def worker(i, q, results, tier, checks_mode, record):
         try:
             for c in checks:
                 t0 = time.time()
-                rc, o = sh("./check %s --tier %s" % (c, tier), cwd=ver, env={"VERIF_JOBS": os.environ.get("PE_JOBS", "6")})
+                # first without the extra builds (one executor build instead of up to seven); the full check only if that finds nothing
+                rc, o = sh("./check %s --tier %s" % (c, tier), cwd=ver, env={"VERIF_JOBS": os.environ.get("PE_JOBS", "6"), "VERIF_NO_EXTRA_BUILDS": "1"})
+                if rc == 0:
+                    rc, o = sh("./check %s --tier %s" % (c, tier), cwd=ver, env={"VERIF_JOBS": os.environ.get("PE_JOBS", "6")})
                 viol = [l for l in o.splitlines() if l.startswith("VIOLATION")]
                 first = ""
                 b = ""
